@@ -7,6 +7,7 @@ import Genshi.Model.OutputWsForest
 import Genshi.Lemmas.OutputWsSpec     -- `normForest`, `wsDom`: specification side of the strip theorems (Mathlib-free)
 import Genshi.Lemmas.ReaderTreeMixed  -- `forestMixedOk`, `forestPiecesXM`: mixed-namespace tree theorems (Mathlib-free)
 import Genshi.Lemmas.ReaderXmlViewMixed  -- `forestPiecesQ`, `mergeGoQ` (Mathlib-free)
+import Genshi.Lemmas.OutputMarkupForest  -- `plainF`, `mkDom`: Markup text leaves (Mathlib-free)
 namespace Driver.C08
 open Genshi Genshi.Reader Genshi.Output Genshi.Sexp
 
@@ -97,6 +98,12 @@ def doctype? : Sexp → Option (Option DocTypeT)
 
 def out (why : String) : Sexp := .list [.atom "out", .atom why]
 
+/-- does the forest hold a Markup (pre-escaped) text leaf -/
+def hasMarkup (ns : List Node) : Bool :=
+  (flattenList ns).any fun e => match e with
+    | .text _ true => true
+    | _ => false
+
 def expectHtml (strip : Bool) (dopt : Option DocTypeT) (s : Stream) : Sexp :=
   match forestOf s with
   | none => out "not-nested"
@@ -104,8 +111,11 @@ def expectHtml (strip : Bool) (dopt : Option DocTypeT) (s : Stream) : Sexp :=
     let (_, dt, body0) := splitProlog ns
     let u := firstNs body0
     -- with `strip_whitespace=True` the theorems speak about the normalised forest (`*_strip_partial`)
-    let body := if strip then normForest .html body0 else body0
+    -- Markup text leaves, strip off: the theorems speak about the plain form (`*_markup_partial`)
+    let mk := !strip && hasMarkup body0 && forestUniformNs u body0
+    let body := if strip then normForest .html body0 else if mk then plainF .html false body0 else body0
     if u == xmlNs then out "xml-namespace"
+    else if mk && !mkDom .html body0 then out "markup-domain"
     else if !okList body0 then out "not-a-forest"
     -- forests that mix namespaces: `html_roundtrip_doc_mixed_partial` / `…_mixed_strip_partial` (same right-hand side)
     else if !forestUniformNs u body0 && !forestMixedOk body0 then out "mixed-namespaces-xml"
@@ -120,8 +130,10 @@ def expectXhtml (strip : Bool) (dropd : Bool) (dopt : Option DocTypeT) (s : Stre
   | some ns =>
     let (decl, dt, body0) := splitProlog ns
     let u := firstNs body0
-    let body := if strip then normForest .xhtml body0 else body0
+    let mk := !strip && hasMarkup body0 && forestUniformNs u body0
+    let body := if strip then normForest .xhtml body0 else if mk then plainF .xhtml false body0 else body0
     if u == xmlNs then out "xml-namespace"
+    else if mk && !mkDom .xhtml body0 then out "markup-domain"
     else if !docNcr u dopt decl dt body then out "carriage-return"
     else if !attrValOkB u then out "namespace-uri"
     else if !okList body0 then out "not-a-forest"
